@@ -55,13 +55,32 @@ def strip(w):
     return [{k: v for k, v in s.items() if k != "post"} for s in w]
 
 
+def interest(w):
+    sc = 0
+    for s in w:
+        a = s.get("act")
+        if a in ("FsMount", "Crash", "Restart"):
+            sc += 2
+        elif a == "FsUnmount" and s.get("hit"):
+            sc += 2
+        elif a == "Call" and s.get("op") == "Close":
+            sc += 3
+        elif a == "Return" and len(s.get("lower") or []) >= 2:
+            sc += 6
+        elif a == "Return" and s.get("bad"):
+            sc += 2
+        elif a == "Hook":
+            sc += 0.1
+    return sc
+
+
 def gen_thunks(run, configs):
     def gen(c):
         label, ov, asyn, sim, maxlen, extra, maxw = c
         args = ()
         if sim:
             args = ("-simulate", "num=%d" % sim[0], "-depth", str(sim[1]), "-seed", str(run.seed))
-        return run.tlc_edges("SnapshotterGen", "Snapshotter_gen.cfg", ov, timeout=1500, args=args, workers=1 if sim else 4)
+        return run.tlc_edges("SnapshotterGen", "Snapshotter_gen.cfg", ov, timeout=1500, args=args, workers=1 if sim else 2)
     return [lambda c=c: gen(c) for c in configs]
 
 
@@ -69,14 +88,20 @@ def make_jobs(run, pid, configs, graphs):
     """configs: list of (label, cfg overrides, async, simulate (num, depth) or None, maxlen, extra walks, max walks)"""
     jobs = []
     for (label, ov, asyn, sim, maxlen, extra, maxw), (inits, edges) in zip(configs, graphs):
-        walks, st = edge_cover(inits, edges, maxlen=maxlen, rng=run.rng, extra_walks=extra, max_walks=maxw)
+        walks, st = edge_cover(inits, edges, maxlen=maxlen, rng=run.rng, extra_walks=extra)
         # C09 is about behaviours with a crash or a restart; the others are C08's
         keep = [w for w in walks if restart_walk(w) == (pid == "C09")]
+        truncated = False
+        if maxw and len(keep) > maxw:
+            # quick tier: keep the walks that exercise most (backend calls, crashes, restarts, Close, long parent chains);
+            # the walks dropped differ from kept ones mainly in calls that are rejected right away
+            keep = sorted(keep, key=interest, reverse=True)[:maxw]
+            truncated = True
         st = dict(st, label=label, kept=len(keep), simulate=bool(sim))
         log("[walks] %s: %s" % (label, st))
         out = os.path.join(run.scratch, "replay_%s.ndjson" % label)
         jobs.append({"label": label, "async": asyn, "names": ["c1", "c2", "c3", "k1", "k2", "k3"], "out": out,
-                     "walks": [strip(w) for w in keep], "exhaustive": (not sim) and st["covered"] == st["edges"] and not maxw})
+                     "walks": [strip(w) for w in keep], "exhaustive": (not sim) and st["covered"] == st["edges"] and not truncated})
         run.cov["stages"].append(dict(stage="edge-cover", **st))
     return jobs
 
@@ -241,7 +266,7 @@ def check(run, pid):
         mcs = []
         run.inconclusive.append("VERIF_SNAP_SKIP_M=1: design-level model checking skipped")
     for ov, what in mcs:
-        thunks.append(lambda ov=ov, what=what: run.tlc_mc("Snapshotter", "Snapshotter_mc.cfg", ov, workers=4, timeout=3000,
+        thunks.append(lambda ov=ov, what=what: run.tlc_mc("Snapshotter", "Snapshotter_mc.cfg", ov, workers=3, timeout=3000,
                                                           name="Snapshotter_mc.cfg Async=%s %s" % (ov["Async"], what)))
     # vacuity guards: each property-bearing guard of the code switched off must break a formula of this property
     for const, expect in (NEGCTL[pid] if mcs else []):
@@ -263,7 +288,7 @@ def check(run, pid):
                        ("sim-async", dict(A, **base, MaxOps="6", MaxId="5", AnyOrder="TRUE"), True, (300, 60), 70, 0, None)]
         else:
             configs = [("sync", dict(S, **base), False, None, 40, 10, None),
-                       ("sync3", dict(S, **base, MaxOps="3", MaxId="3", Keys=K1), False, None, 40, 0, 500),
+                       ("sync3", dict(S, **base, MaxOps="3", MaxId="3", Keys=K1), False, None, 40, 0, 600),
                        ("async", dict(A, **base, Keys=K1), True, None, 40, 10, None),
                        ("sim-sync", dict(S, **base, MaxOps="5", MaxId="4", AnyOrder="TRUE"), False, (10, 50), 60, 0, None)]
     else:
@@ -277,9 +302,9 @@ def check(run, pid):
                        ("async", dict(A, Keys=K1), True, None, 40, 0, 500),
                        ("sim-sync", dict(S, MaxOps="4", MaxId="3", MaxRestarts="2", AnyOrder="TRUE"), False, (8, 50), 60, 0, None)]
     gts = gen_thunks(run, configs)
-    res = parallel(run, gts + thunks, 6)
+    res = parallel(run, gts + thunks, 3)   # at most three TLC processes at a time
     jobs = make_jobs(run, pid, configs, res[:len(gts)])
-    results = drive(run, jobs, nproc=6 if thorough else 4)
+    results = drive(run, jobs, nproc=4)
     for rc, out in results:
         if rc != 0:
             run.violation("datarace:snapshot", "data race reported in the snapshot package under the driver", {"log": out[-6000:]})
